@@ -10,6 +10,18 @@ VERIF = Path(__file__).resolve().parent.parent
 
 # property -> (technique, level text, level note, design ref)
 CLAIMED = {
+    "C06": (
+        "type-resolved unused-result rule (partial-write APIs) + must-pass-through (flush after encrypt, drain before close) + provenance of written bytes + sibling agreement",
+        "Static necessary conditions R1-R5; sizes and record/buffer boundaries are run-time quantities and are NOT decided. No call that resolves (through attribute annotations) to a partial-write API such as OpenSSL.SSL.Connection.send has its result discarded; in the transport wrapper every encrypt call is followed by a flush, close() shuts down and flushes before the TCP close, and the flush loop only leaves with an empty BIO; the body written is response.body (UTF-8 for text) unsliced and the re-wrapping constructions pass status/meta/body through; both listeners build the same protocol; the raw transport only carries bio_read output.",
+        "Trusted: CPython ast, engine resolver, asyncio transports, OpenSSL sendall.",
+        "DESIGN.md section 2, C06",
+    ),
+    "C14": (
+        "abstract evaluation with violating/conforming samples on the inlined handler (no feasible path reaches a mutation) + resolve/contain provenance of every mutated path + in-place-write ban with temp-file cleanup reachability + content provenance + config wiring",
+        "Static necessary conditions U1-U5: for a wrong/missing token (tokens configured), size above the limit, media type outside the list, or a zero-byte request with deletion disabled no feasible path of handle_upload (delete inlined) contains a filesystem mutation, while conforming samples reach store and unlink; every mutated path is resolved and contained; the target is never written in place, only by atomic rename from a temp file in the same directory that is removed on every failing path; stored bytes are request.content; titan_* settings are wired to the like-named parameters. OS fault behaviour itself and races are not decided.",
+        "Trusted: CPython ast, engine, POSIX rename atomicity, pathlib.",
+        "DESIGN.md section 2, C14",
+    ),
     "C02": (
         "reaching-definition provenance (resolve -> contain -> use on the same value, aliases followed) + edge-blocking dominance of the containment test + predicate shape + def-use count of percent-decoding",
         "Static necessary conditions P1-P5 on StaticFileHandler: every content use (read_text/read_bytes/open/listing) operates on a Path that is the result of .resolve() and on every CFG path passed the containment test applied to that same value; the containment predicate is Path.relative_to/is_relative_to against a resolved root and is truthy only when that call succeeded; non-success responses carry no body and no text derived from file content; exactly one urllib.parse.unquote lies on the chain from request.path to the join with the root; the static and upload predicates agree. Races and resolve() on cyclic links are not decided.",
